@@ -697,6 +697,9 @@ type Op struct {
 	User     string
 	// WaitJob: do not start before this many jobs have been accepted (driver-side precondition)
 	WaitAccepted int
+	// WaitEvent / WaitEventJob: do not start before an event of this kind has been logged for that job
+	WaitEvent    string
+	WaitEventJob int
 }
 
 func (o Op) String() string {
@@ -743,6 +746,19 @@ func (w *World) Do(o Op) {
 	if o.WaitAccepted > 0 {
 		if vs := vsched.Active(); vs != nil && w.Accepted < o.WaitAccepted {
 			vs.ParkFunc(func() bool { return w.Accepted >= o.WaitAccepted }, "wait-accepted")
+		}
+	}
+	if o.WaitEvent != "" {
+		seen := func() bool {
+			for _, e := range w.Log {
+				if e.Kind == o.WaitEvent && e.Job == o.WaitEventJob {
+					return true
+				}
+			}
+			return false
+		}
+		if vs := vsched.Active(); vs != nil && !seen() {
+			vs.ParkFunc(seen, "wait-event")
 		}
 	}
 	w.log(Event{Kind: EvApiCall, Detail: o.String(), Job: o.Job})
